@@ -112,8 +112,8 @@ def run(ctx):
     donor = jc.donor_dir("Work")
     data = (donor / "_result.pklz").read_bytes()
     lens = list(range(len(data) + 1))
-    if not ctx.thorough:
-        lens = sorted(set(ctx.rng.sample(lens, min(len(lens), 300)) + [0, 1, len(data) - 1, len(data)]))
+    if not ctx.thorough and len(lens) > 4000:
+        lens = sorted(set(ctx.rng.sample(lens, 4000) + list(range(0, 64)) + [len(data) - 1, len(data)]))
     res = core.pmap(truncation_case, [(n, data, donor.name, 2) for n in lens], chunksize=16)
     for n, v in res:
         ctx.ran()
